@@ -261,6 +261,9 @@ def run(ctx, R, tier):
     from .c05 import clock_rules
     clock_rules(F, R)
     pickup_order(F, R)
+    # a life-cycle command takes effect as the documented state machine says, in every state (the C03 rules)
+    from . import c03
+    c03.run(ctx, R, tier)
     # every effect, sound and child track of a track is given its on_start_processing (where their own command readers are
     # polled) on every path: the C16 fan-out rule, which covers on_start_processing
     from .c16 import cover as fanout_cover
@@ -633,6 +636,14 @@ def pickup_order(F, R, rule='B.C07.pickup-order', which=('renderer', 'mixer')):
                         'Renderer::on_start_processing does not let the mixer pick up new sounds and tracks before the %s are picked up: '
                         'a sound or track could be seen one callback before the %s it is linked to' % (dep.split('::')[0], dep.split('::')[0][:-1]),
                         detail='mixer.on_start_processing ≺ %s.on_start_processing' % dep.split('::')[0], where=b.file)
+            # ... and the modulators last: the speed of a clock and the position of a listener may be linked to a modulator too
+            md = [x for x, t in b.calls() if (callee_path(t) or '') == 'backend::resources::modulators::Modulators::on_start_processing']
+            for dep in ('clocks::Clocks', 'listeners::Listeners'):
+                dx = [x for x, t in b.calls() if (callee_path(t) or '') == 'backend::resources::%s::on_start_processing' % dep]
+                R.check(len(md) == 1 and len(dx) == 1 and order_ok(b, dx, md), rule, 'renderer:%s-before-modulators' % dep.split('::')[0],
+                        'Renderer::on_start_processing picks up new modulators before new %s: a %s linked to a modulator created just before it '
+                        'could be seen one callback before that modulator' % (dep.split('::')[0], dep.split('::')[0][:-1]),
+                        detail='%s.on_start_processing ≺ modulators.on_start_processing' % dep.split('::')[0], where=b.file)
     if 'mixer' in which:
         b = F.body('backend::resources::mixer::Mixer::on_start_processing')
         if R.check(b is not None, rule, 'anchor:mixer', 'Mixer::on_start_processing not found'):
